@@ -7,6 +7,8 @@ import (
 	"strings"
 
 	"pgregory.net/rapid"
+
+	"verifsim/sim/core"
 )
 
 // CSVCase is a logical table, the way it is rendered, and the configuration
@@ -32,7 +34,12 @@ type CSVCase struct {
 	OddHeader        bool                `json:"odd_header,omitempty"`  // header contains empty/duplicate names
 	AliasTyped       bool                `json:"alias_typed,omitempty"` // Types declares "string" for the aliased (nameless) column
 
-	Doc []byte `json:"-"`
+	// EOLSwitch > 0: from that line on the other line ending is used; EOLKey != 0:
+	// every line end is LF or CRLF as the key says (both are row ends of RFC 4180,
+	// a document may mix them)
+	EOLSwitch int    `json:"eol_switch_at_line,omitempty"`
+	EOLKey    uint64 `json:"eol_per_line_key,omitempty"`
+	Doc       []byte `json:"-"`
 	// DocText is Doc quoted for the trace.
 	DocText string `json:"doc"`
 }
@@ -346,6 +353,15 @@ func DrawCSV(t *rapid.T, b CSVBounds) *CSVCase {
 			c.BlankAfter[r] = rapid.IntRange(0, 5).Draw(t, "blank") == 0
 		}
 	}
+	switch rapid.IntRange(0, 11).Draw(t, "eolmode") {
+	case 0:
+		c.EOLKey = rapid.Uint64().Draw(t, "eolkey") | 1
+	case 1:
+		at := []int{1, 2, 3, 150, 201, 202, 260, 700}[rapid.IntRange(0, 7).Draw(t, "eolswitch")]
+		if at <= nrows {
+			c.EOLSwitch = at
+		}
+	}
 	c.render()
 	return c
 }
@@ -359,7 +375,20 @@ func (c *CSVCase) render() {
 	ncols := len(c.Names)
 	nlines := 0
 	lastEmptyLine := false
+	base := eol
+	other := map[string]string{"\n": "\r\n", "\r\n": "\n"}[eol]
+	setEOL := func() {
+		// the line end that closes line number nlines-1
+		eol = base
+		if c.EOLSwitch > 0 && nlines >= c.EOLSwitch {
+			eol = other
+		}
+		if c.EOLKey != 0 && core.Hash64(c.EOLKey, nlines)&1 == 1 {
+			eol = other
+		}
+	}
 	writeRow := func(cells []string, q []bool) {
+		setEOL()
 		if nlines > 0 {
 			sb = append(sb, eol...)
 		}
@@ -380,6 +409,7 @@ func (c *CSVCase) render() {
 	}
 	blank := func(r int) {
 		if c.BlankAfter != nil && c.BlankAfter[r] {
+			setEOL()
 			if nlines > 0 {
 				sb = append(sb, eol...)
 			}
@@ -398,6 +428,7 @@ func (c *CSVCase) render() {
 	// The one ambiguity of the format: a last line that is empty and has no
 	// line break is indistinguishable from "no such line". Always terminate it.
 	if nlines > 0 && (c.FinalBreak || lastEmptyLine) {
+		setEOL()
 		sb = append(sb, eol...)
 		c.FinalBreak = true
 	}
